@@ -9,9 +9,19 @@ Lemma cl_pending_arm_rechecks_closed : gen_pfacts.(f_pending_recheck) = true. Pr
 Lemma cl_stream_drop_closes_and_wakes : fact_stream_drop_closes_and_wakes = true. Proof. reflexivity. Qed.
 Lemma cl_pipe_context_disposes_on_chute : fact_pipe_context_disposes_on_chute = true. Proof. reflexivity. Qed.
 
-Theorem C16_now : forall (f : nat -> nat) inputs ext tr s,
-    run gen_pfacts f (init gen_pfacts inputs ext) tr = Some s ->
+Lemma cl_stream_drop_wakes_before_dispose : gen_pfacts.(f_drop_wakes_before_dispose) = true. Proof. reflexivity. Qed.
+
+Theorem C16_now : forall (f : nat -> nat) inputs sl ext tr s,
+    run gen_pfacts f (init_slow gen_pfacts inputs sl ext) tr = Some s ->
     dropped s = true -> terminal_silent gen_pfacts f s ->
     s.(strong_held) = false /\ released s = true /\ s.(cst) = CGone.
-Proof. intros f. exact (C16_drop_shuts_down gen_pfacts f cl_pending_arm_rechecks_closed). Qed.
+Proof. intros f. exact (C16_drop_shuts_down gen_pfacts f cl_pending_arm_rechecks_closed cl_stream_drop_wakes_before_dispose). Qed.
 Print Assumptions C16_now.
+
+(* the pipe as last owner of the object: freed exactly once, nobody left inside Desync::drop, the stream-core lock free *)
+Theorem C16_last_owner_now : forall (f : nat -> nat) inputs sl ext tr s,
+    run gen_pfacts f (init_slow gen_pfacts inputs sl ext) tr = Some s ->
+    dropped s = true -> terminal_silent gen_pfacts f s -> s.(ext_owner) = false ->
+    s.(freed) = 1 /\ s.(cst) = CGone /\ core_locked s = false /\ syncers s = 0 /\ desync_alive s = false.
+Proof. intros f. exact (C16_last_owner_drop gen_pfacts f cl_pending_arm_rechecks_closed cl_stream_drop_wakes_before_dispose). Qed.
+Print Assumptions C16_last_owner_now.
